@@ -114,7 +114,7 @@ def execute(case, ctx):
     files, orders = P.render(prog, drivers.simlib_text())
     if driver == "plugin":
         files["pyproject.toml"] = sim.pyproject_for(fmt)
-    new, res = sim.run_session(ctx, driver, files, {"flags": "create", "fmt": fmt})
+    new, res = sim.run_session(ctx, driver, files, {"flags": case.get("flags", "create"), "fmt": fmt})
     log = [["session", driver, fmt_tag(fmt), res.get("status"), res.get("rc"), res.get("categories"), sorted(map(str, res.get("rec", [])))]]
     out = {"violations": [], "discards": {}, "abstract": [], "log": log}
     if not sim.session_completed(driver, res):
@@ -126,7 +126,7 @@ def execute(case, ctx):
         if e.get("t") == "cmp":
             events_by_site.setdefault(e["site"], []).append(e)
     srec = sim.rec_by_eid(res.get("rec", []))
-    exempt = set()
+    exempt = {sid for sid, (f, s) in sidx.items() if s.get("unmanaged")}
     for sid, evs in events_by_site.items():
         for e in evs:
             for a in srec.get(e["eid"], []):
@@ -141,10 +141,18 @@ def execute(case, ctx):
                     for tt in f["tests"]:
                         if tt["name"] == tn:
                             exempt.update(e["site"] for e in tt["events"] if e.get("t") == "cmp")
-    elif res.get("raises"):
-        # run_inline: some test raised; sites after the raising event may not have been reached
+    elif res.get("raises") and not case.get("allow_raises"):
+        # run_inline: some test raised unexpectedly (usage error); later sites of that test were not reached
         out["discards"]["test-raised-in-inline-session"] = 1
         return out
+    # reached = the first session recorded at least one comparison of the site
+    reached = {sid for sid, evs in events_by_site.items() if any(srec.get(e["eid"]) for e in evs)}
+    for sid, (f, s) in sidx.items():
+        if s["place"] == "module" and s["arg"] is None and sid not in reached:
+            # an empty module-level snapshot that no executed comparison reached cannot be created:
+            # the module does not import when disabled, nothing of this file can be judged
+            out["discards"]["empty-module-level-site-never-compared"] = 1
+            return out
     text_new = sim.to_text({k: v for k, v in new.items() if k.endswith(".py")})
     # ---- clause: the rewritten file is valid python and every created site holds an expression
     try:
@@ -157,7 +165,7 @@ def execute(case, ctx):
         return out
     ctx.count("clauses_checked")
     for (fn, sid), call in smap.items():
-        if sid in exempt or sid not in events_by_site:
+        if sid in exempt or sid not in reached:
             continue
         site = sidx[sid][1]
         ctx.count("sites_created")
